@@ -40,10 +40,14 @@ def opid(s):
     return ["id", abs(hash(s)) % 1000 + 1000]
 
 
-def project(pipes_with_arrival):
-    """[(arrival_seconds, Pipeline)] -> the structural projection the spec speaks about."""
+def project(pipes_with_arrival, intent=False):
+    """[(arrival_seconds, Pipeline)] -> the structural projection the spec speaks about.
+    intent=True: the structure the driver meant to build (recorded while building), not what the objects say now."""
     out = []
     for arr, p in pipes_with_arrival:
+        if intent and hasattr(p, "_verif_intent"):
+            out.append({"prio": p.priority.name, "arr": repr(float(arr)), "ops": list(p._verif_intent)})
+            continue
         ops = [p.values.node_lookup[i] for i in p.values.node_ids]
         pos = {id(o): k + 1 for k, o in enumerate(ops)}
         jops = []
@@ -82,6 +86,10 @@ def read_workload(text, tps=10):
     return out
 
 
+CALLABLE_OF = {"const": "_const", "log": "_log_scale", "sqrt": "_sqrt", "linear3": "_linear_bnded_three", "linear7": "_linear_bnded_seven",
+               "squared": "_squared", "exp": "_exponential_bnd"}
+
+
 def make_workload(rng):
     from eudoxia.workload import Pipeline
     from eudoxia.workload.pipeline import Segment
@@ -95,12 +103,23 @@ def make_workload(rng):
         p = Pipeline("p1" if same_ids else f"x{k}", rng.choice(list(Priority)))
         n = rng.choice([1, 1, 2, 3, 5, 8, 12])
         ops = []
+        intent = p._verif_intent = []          # what the driver MEANT to build (the objects themselves are what is under test)
         for i in range(n):
             pa = sorted(rng.sample(range(i), min(i, rng.choice([0, 1, 1, 2, 3])))) if i else []
-            o = p.new_operator([ops[j] for j in pa] or None)
+            plist = [ops[j] for j in pa]
+            o = p.new_operator(plist or None)
+            if plist and rng.random() < 0.3:
+                # the list handed to new_operator is the caller's: a scratch list that is reused for the next operator
+                plist.clear() if rng.random() < 0.5 else plist.append(o)
             mem = rng.choice([None, None, 0.0, 0, rng.choice(VALUES)])
-            o.add_segment(Segment(baseline_cpu_seconds=rng.choice(VALUES), cpu_scaling=rng.choice(LAWS), memory_gb=mem, storage_read_gb=rng.choice(VALUES)))
+            law = lawname = rng.choice(LAWS)
+            if rng.random() < 0.2:          # the callable form of cpu_scaling: the function itself instead of its name
+                from eudoxia.workload.pipeline import ScalingFuncs
+                law = getattr(ScalingFuncs, CALLABLE_OF[law])
+            cpu_s, read_s = rng.choice(VALUES), rng.choice(VALUES)
+            o.add_segment(Segment(baseline_cpu_seconds=cpu_s, cpu_scaling=law, memory_gb=mem, storage_read_gb=read_s))
             ops.append(o)
+            intent.append({"par": [j + 1 for j in pa], "cpu": repr(float(cpu_s)), "law": lawname, "mem": "" if mem is None else repr(float(mem)), "read": repr(float(read_s))})
         at.setdefault(rng.randrange(nticks), []).append(p)
     return at, tps, nticks
 
@@ -154,11 +173,15 @@ def mutate(text, variant, rng):
 def case_lines(seed, tid0):
     rng = random.Random(seed)
     at, tps, nticks = make_workload(rng)
-    text = write_workload(at, tps, nticks)
     intended = []
     for t in sorted(at):
         for p in at[t]:
             intended.append((t * (1.0 / tps), p))
+    try:
+        text = write_workload(at, tps, nticks)
+    except Exception as e:  # noqa: BLE001 - the writer must accept every well-formed workload
+        return [[{"kind": "roundtrip", "tid": tid0, "wrote": False, "err": f"{type(e).__name__}: {str(e)[:120]}", "w": project(intended, intent=True),
+                  "rows": [], "back": [], "backok": False, "rows2": [], "seed": seed}]]
     lines = []
     try:
         back = read_workload(text)
@@ -166,7 +189,7 @@ def case_lines(seed, tid0):
         text2 = write_workload_from_read(back, tps)
     except Exception as e:  # noqa: BLE001
         backj, text2 = None, text
-    lines.append([{"kind": "roundtrip", "tid": tid0, "w": project(intended), "rows": rows_json(text), "back": backj or [], "backok": backj is not None, "rows2": rows_json(text2),
+    lines.append([{"kind": "roundtrip", "tid": tid0, "wrote": True, "err": "", "w": project(intended, intent=True), "rows": rows_json(text), "back": backj or [], "backok": backj is not None, "rows2": rows_json(text2),
                    "seed": seed}])
     for k, variant in enumerate(rng.sample(MALFORMED, 4)):
         bad = mutate(text, variant, rng)
